@@ -88,14 +88,33 @@ def check (op : String) : Rd Verdict := do
     return specFail (path ++ "/spec/dims") s!"in={a.rows}x{a.colsN} out={out.rows}x{out.colsN} expected={wr}x{wc}" feats
   if dout != want then
     return specFail (path ++ "/spec/den") s!"in={describe a} out={describe out}" feats
+  -- order postconditions on the implementation's output (so that the tie canonicalisation below
+  -- cannot hide an unsorted result)
+  let needSorted := op == "sort" || op == "addnodup"
+  let needStrict := (op == "rmdup" && !a.sorted) || op == "add" || op == "sub"
+  if !out.isBlock && (needSorted || needStrict) then
+    let okLine (l : List (Nat × Int)) : Bool :=
+      (l.zip (l.drop 1)).all fun p => if needStrict then p.1.1 < p.2.1 else p.1.1 ≤ p.2.1
+    let sortedOk := match out.fmt with
+      | 0 => let es := out.toCoo.ents
+             (es.zip (es.drop 1)).all fun p =>
+               p.1.1 < p.2.1 || (p.1.1 == p.2.1 && (if needStrict then p.1.2.1 < p.2.2.1 else p.1.2.1 ≤ p.2.2.1))
+      | _ => out.lines.all okLine
+    if !sortedOk then
+      return specFail (path ++ "/spec/order") s!"out={describe out}" feats
   -- model equality on the arrays (scalar formats)
   if a.isBlock then return ok feats
   match applyOp op dst a b with
   | none => return badCase s!"no model for {op}"
   | some m =>
-    let unstable := op == "sort" || op == "rmdup" || op == "add" || op == "sub" || op == "addnodup" || op == "movediag"
+    -- `std::sort` leaves the order among equal keys unspecified: canonicalise ties by value
+    let unstable := op == "sort" || op == "rmdup" || op == "add" || op == "sub" || op == "addnodup"
     let same := if unstable then sameRaw (canonTies out) (canonTies m) else sameRaw out m
     if same then return ok feats
+    -- COO move_diag sorts an unsorted input first; with duplicate positions its result depends on
+    -- the unspecified tie order, so only the (already verified) specification is required there
+    let dupPos := let ps := a.toCoo.ents.map fun e => (e.1, e.2.1); ps.length != ps.eraseDups.length
+    if op == "movediag" && a.fmt == 0 && !a.sorted && dupPos then return ok (feats ++ ["ties_unspecified"])
     else return diff (path ++ "/arrays") s!"impl={describe out} model={describe m}" feats
 
 def run (op : String) (a : Array Int) : Verdict :=
